@@ -15,7 +15,7 @@ import traceback
 import types
 
 from vf.common.core import VERIF_ROOT, Inconclusive
-from vf.sim.session import ref_client, make_settings
+from vf.sim.session import ref_client, make_settings, seed_for_server_deals
 
 
 class RealResult:
@@ -59,6 +59,7 @@ def run_real_session(scenario, timeout_s=60.0, client_fns=None):
     real_time_mod = SV.time
     SV.time = types.SimpleNamespace(sleep=lambda secs: time.sleep(0), time=time.time)
     listening = threading.Event()
+    seed_for_server_deals(scenario)
     try:
         last = None
         for _ in range(6):
